@@ -1,5 +1,6 @@
 import PfModel.DriverVal
 import PfModel.Model.ResumeFS
+import PfModel.Model.ResumePar
 /-! Driver for C05: `map.run_on` (the resumable runner on a given folder state), `map.events` (event list of a run into an
     empty folder), `map.resume` (crash the fresh run after `crash` events, then run again on what is left). -/
 open Lean PF PF.Drv PF.Map PF.ResumeFS
@@ -64,7 +65,8 @@ def getFS (j : Json) : R FS := do
   return { files := fun p => (files.find? (·.1 = p)).map (·.2), dirs := fun d => dirs.contains d }
 
 def getCfg (j : Json) : R Cfg := do
-  return { legacy := (← optF asBool j "legacy").getD false, dict := (← optF asBool j "dict").getD false, failAt := ← optF asNat j "fail_at" }
+  return { legacy := (← optF asBool j "legacy").getD false, dict := (← optF asBool j "dict").getD false,
+           other := (← optF (asList asStr) j "other").getD [], failAt := ← optF asNat j "fail_at" }
 
 def putEv : Ev → Json
   | .mkdirp d => jArr [jStr "mkdirp", putDir d]
@@ -105,12 +107,26 @@ def getReq (a : Json) : R Req := do
   return { cfg := ← getCfg ((fld? a "cfg").getD (jObj [])), fsd := ← listF getMFunc a "funcs", inputs := ← getKw (← fld a "inputs"),
            internal := (← optF (asList (asPair asStr (asList asNat))) a "internal").getD [] }
 
+/-- a scheduler given as data: for generation `g` the order (indices into the submitted bodies) in which the bodies ran;
+    anything that is not a permutation of the bodies' indices falls back to submission order -/
+def permSched (orders : List (List Nat)) : Sched := fun g bs pe =>
+  match orders[g]? with
+  | some o =>
+    if o.length = bs.length && o.all (· < bs.length) && (o.eraseDups.length = o.length) then (o.filterMap (bs[·]?)).flatten ++ pe
+    else bs.flatten ++ pe
+  | none => bs.flatten ++ pe
+
 def handle (m : String) (a : Json) : R Json := do
   match m with
   | "map.run_on" =>
     let q ← getReq a
     let fs ← getFS (← fld a "fs")
     return putRun (runOn q.cfg fs q.fsd q.inputs q.internal)
+  | "map.par_events" =>
+    -- the pool runner into an empty folder, bodies of generation g in the order `orders[g]`
+    let q ← getReq a
+    let orders ← listF (asList asNat) a "orders"
+    return putRun (runOnP q.cfg (permSched orders) FS.empty q.fsd q.inputs q.internal)
   | "map.events" =>
     let q ← getReq a
     return putRun (runFresh q.cfg q.fsd q.inputs q.internal)
